@@ -145,6 +145,11 @@ class SymWorld:
         from .bits import seq_eq
         return seq_eq(a, b)
 
+    def val(self, seq):
+        """unsigned value of a bit sequence of concrete width (int or SymInt)"""
+        from .sym import mk_int, _z
+        return mk_int(_z(seq.value())) if seq.length() else 0
+
     def bytes_seq(self, b):
         from .bits import to_seq_bytes
         return to_seq_bytes(b)
@@ -313,6 +318,9 @@ class NativeWorld:
     def eq_seq(self, a, b):
         from .bits import seq_eq
         return seq_eq(a, b)
+
+    def val(self, seq):
+        return seq.value() if seq.length() else 0
 
     def bytes_seq(self, b):
         from .bits import Seq
